@@ -1,13 +1,13 @@
 //! fulldrive <cases.ndjson> <obs.ndjson> [start_index]
 //! Runs the whole in-process pipeline on each project: parse, codegen as `mos build` does it, codegen in the language
-//! server's greedy analysis mode, format every file, generate listings -- and records one lifecycle per project.
+//! server's greedy analysis mode, format every file, merge banks, symbol file text, listings -- and records one lifecycle per project.
 //! Each project runs on its own thread with a watchdog (a hang is an observation); a panic is caught and recorded.
 //! A stack overflow / abort kills this process: the caller sees a short output file and restarts after the culprit.
 //! case: {id, files: {name: text}, entry}
 //! obs : {id, end: "done"|"panic"|"hang", panic, events: [...]}
 use mos_core::codegen::{codegen, CodegenOptions};
 use mos_core::formatting::{format, FormattingOptions};
-use mos_core::io::to_listing;
+use mos_core::io::{to_listing, to_vice_symbols, BinaryWriter};
 use mosverif::{diags_to_json, guarded, install_panic_hook, parse_case, symbols_json, Case};
 use serde_json::{json, Value};
 use std::cell::RefCell;
@@ -109,6 +109,25 @@ fn run_one(case: Case) -> Value {
         Err(p) => return json!({"id": case.id, "end": "panic", "panic": p, "stage": "codegen", "events": events}),
     };
     if let Some(ctx) = ctx {
+        // the rest of `mos build`: merge the segments into banks (nothing is written), listings, symbol file text
+        match guarded(std::panic::AssertUnwindSafe(|| BinaryWriter {}.merge_segments(&ctx))) {
+            Ok(Ok(b)) => events.push(json!({"ev": "merge", "banks": b.len(), "ndiags": 0, "diags": []})),
+            Ok(Err(e)) => {
+                let d = diags_to_json(&e);
+                events.push(json!({"ev": "merge", "banks": 0, "ndiags": d.len(), "diags": d}))
+            }
+            Err(p) => {
+                events.push(json!({"ev": "merge", "panic": p}));
+                return json!({"id": case.id, "end": "panic", "panic": p, "stage": "merge", "events": events});
+            }
+        }
+        match guarded(std::panic::AssertUnwindSafe(|| to_vice_symbols(ctx.symbols()))) {
+            Ok(t) => events.push(json!({"ev": "symbols", "len": t.len()})),
+            Err(p) => {
+                events.push(json!({"ev": "symbols", "panic": p}));
+                return json!({"id": case.id, "end": "panic", "panic": p, "stage": "symbols", "events": events});
+            }
+        }
         for n in [1usize, 8] {
             match guarded(std::panic::AssertUnwindSafe(|| to_listing(&ctx, n))) {
                 Ok(Ok(l)) => events.push(json!({"ev": "listing", "bpl": n, "files": l.len()})),
